@@ -9,6 +9,8 @@ import DaliVerif.Drivers.Proto
         cells = 256 comma-separated tokens, `-` (not implemented) or <r|w|l><value>:
         r read-only (live: value(t) = (v + drift*t) mod 256), w writable, l writable when unlocked      -> ok
     fault <k> none|err|byte <n>                                                                      -> ok
+    stall <k,k,…>      the unit does not advance DTR0 on the frames with these indices (0-based,
+                       counted from `seq`); everything else about those frames is as usual        -> ok
     seq readraw <g|d|i|o> <a> <bank> <loc,loc,…|->
     seq readval <g|d|i|o> <a> <bankKey.valueName>
     seq readall <g|d|i|o> <a> <bankKey> <useLatch>
@@ -56,6 +58,8 @@ structure St where
   diverged : Option String := none
   idx : Nat := 0
   fault : Option (Nat × Resp) := none
+  /-- frames (indices) on which the unit does not advance DTR0 -/
+  stall : List Nat := []
   /-- an injected fault changed an answer the code looks at -/
   faulted : Bool := false
   /-- the answer that was substituted -/
@@ -257,7 +261,14 @@ def post (sq : Seq) (st : St) (out : PyRes Val) : Option String :=
         | .ok .unit =>
           if ignoreFb then none
           else if !(listens u0 arg) then some "write to an absent unit reported as success"
-          else if stored then none else some "write returned normally but memory does not hold exactly the data"
+          else if stored then none else
+            -- name the first location that is wrong (for the replay)
+            let badLoc := (pairs.find? fun p => !b0.isLockCell p.1 && b.rw p.1 != p.2).map fun p =>
+              s!": location {p.1} holds {b.rw p.1}, data byte {p.2}"
+            let badOther := (cells256.find? fun a => !(pairs.map (·.1)).contains a && b.rw a != b0.rw a).map fun a =>
+              s!": location {a} (not part of the value) changed from {b0.rw a} to {b.rw a}"
+            some ("write returned normally but memory does not hold exactly the data" ++
+              (badLoc.getD (badOther.getD s!": lock byte {b.lockByte}")))
         | .error .MemoryLocationNotWriteable => none
         | .error .ResponseError => none
         | .error .MemoryWriteFailure => none
@@ -266,12 +277,16 @@ def post (sq : Seq) (st : St) (out : PyRes Val) : Option String :=
 def handleStep (st : St) : List String → St × String
   | "unit" :: rest =>
     match parseUnit rest with
-    | some u => ({ st with unit := u, unit0 := u, fault := none, faulted := false, snapTime := none }, "ok")
+    | some u => ({ st with unit := u, unit0 := u, fault := none, stall := [], faulted := false, snapTime := none }, "ok")
     | none => (st, "bad-op")
   | "fault" :: k :: rest =>
     match parseNat? k, parseResp rest with
     | some k, some r => ({ st with fault := some (k, r) }, "ok")
     | _, _ => (st, "bad-op")
+  | ["stall", ks] =>
+    match parseNatList ks with
+    | some ks => ({ st with stall := ks }, "ok")
+    | none => (st, "bad-op")
   | "seq" :: rest =>
     match parseSeq rest with
     | some sq => ({ st with seq := some sq, model := some sq.prog, diverged := none, idx := 0,
@@ -283,7 +298,7 @@ def handleStep (st : St) : List String → St × String
       match Cmd.decode? nm bits fr with
       | none => (st, "bad-op")
       | some c =>
-        let (r0, unit') := st.unit.step c
+        let (r0, unit') := st.unit.stepStall (st.stall.contains st.idx) c
         let (r, faulted) := match st.fault with
           | some (k, fr) => if k == st.idx then (fr, st.faulted || fr != r0) else (r0, st.faulted)
           | none => (r0, st.faulted)
@@ -333,7 +348,7 @@ def handleStep (st : St) : List String → St × String
         | none, none => ("0@end:no-model", "-", "")
       let p := match post sq st out with
         | none => "ok" | some m => "FAIL:" ++ m.replace " " "~"
-      ({ st with seq := none, model := none, fault := none },
+      ({ st with seq := none, model := none, fault := none, stall := [] },
         s!"ok sync={sync} model={modelOut.replace " " "~"} post={p} raw={rawS}")
     | _, _ => (st, "bad-op")
   | ["state"] =>
